@@ -258,7 +258,13 @@ def build_arg(a):
 
 async def em_ctor(c):
     fn = getattr(J.JSONRPCMessage, c["fn"]) if c.get("unified") else getattr(J, c["fn"])
-    return [fn(**{k: build_arg(v) for k, v in c["args"].items()})]
+    obj = fn(**{k: build_arg(v) for k, v in c["args"].items()})
+    if c.get("direct"):
+        # the same fields handed to the message class itself, `jsonrpc` left to its default
+        fields = {k: getattr(obj, k) for k in ("id", "method", "params", "result", "error")
+                  if getattr(obj, k, None) is not None}
+        obj = type(obj)(**fields)
+    return [obj]
 
 
 async def em_helper(c):
